@@ -268,6 +268,14 @@ func (fv *FV) opaqueCall(e *Env, x *ast.CallExpr, fn *types.Func, recv *Value, a
 		}
 		fv.havocAlloc(e)
 	}
+	if gv, ok := fv.eng.bumpVar(fn); ok {
+		comp := "G$" + sanitize(gv)
+		if !fv.eng.ghostVarNamed(gv) {
+			fv.specErr("bump: class names ghost variable " + gv + " which no loaded contract file declares")
+		}
+		cur := fv.loadComp(e, comp, sInt, tNull)
+		fv.storeComp(e, comp, sInt, add(cur, intLit(1)), tNull)
+	}
 	v := fv.freshValue(rt, "r$"+sanitize(lastSeg(name)))
 	fv.nonNilResults(fn, v)
 	fv.assumeAllocated(e, v)
@@ -884,6 +892,7 @@ func (fv *FV) modLocations(pre *Env, cl *Clause, bind map[types.Object]Value) []
 				{kind: "cell", comp: kvDom, ref: tNull, sort: arrSort(sInt, sBool)},
 				{kind: "cell", comp: kvVal, ref: tNull, sort: arrSort(sInt, sInt)},
 				{kind: "cell", comp: kvWrites, ref: tNull, sort: sInt},
+				{kind: "cell", comp: treeWritesComp(), ref: tNull, sort: arrSort(sRef, sInt)},
 			}
 		}
 		if fn, _, _ := fv.calleeOf(call); fn != nil && fn.Name() == "gh_hdr" && len(call.Args) == 1 {
